@@ -99,7 +99,10 @@ StepOrd(S, c, ord) ==
       [] c[1] = KDisable -> NormSw(Disable(S, FeatSet(c[2]), Bit(c[2], 8)))
       [] c[1] = KPaint   ->
             LET st == Stroke(c[2], c[3])
-            IN Norm(UPaint(PaintedSeg(S, st, c[4]), S.seg, st, c[4], c[5] \div 2, c[5] % 2 = 1, ord))
+                r  == Norm(UPaint(PaintedSeg(S, st, c[4]), S.seg, st, c[4], c[5] \div 2, c[5] % 2 = 1, ord))
+            \* after a refused update the CALLER restores the pixels it had painted (C11)
+            IN IF r.ok \/ ~HasSeg THEN r
+               ELSE [r EXCEPT !.s = [r.s EXCEPT !.seg = [q \in Pix |-> IF q \in st THEN S.seg[q] ELSE @[q]]]]
 StepSet(S, c) == {StepOrd(S, c, o) : o \in Ords(c)}
 
 (***************************************************************************)
